@@ -1,5 +1,6 @@
 """C20 — combined scenarios run every component, in order, in setup and in each iteration."""
 from . import _scn
+from ..core import hx
 ID = "C20"
 PROPS = ["F1Verif.Props.C20", "F1Verif.Props.FactsC20"]
 ALSO = ["F1Verif.Props.Handle"]
@@ -18,12 +19,22 @@ def corpus():
         "scn 3 r1/r2;r3/F|Pr;_/L1 c1=L1;c2=L2;c3=L3",
         "scn2 2 _/L1;_/L2;_/L3",
         "scn 2 _/L0;_/WN|WPs|WQ;_/L2 -",      # a component that stops inside t.Time still stops the iteration
+        # through the public API: a combined scenario whose first component fails in every way; the later component
+        # runs exactly when the first did not stop the iteration
+        "cli mode=users dur=%s conc=1 bodyms=1 maxit=12 failevery=2 failkind=errunhash combine=1 expectlimit=1" % hx("400ms"),
+        "cli mode=users dur=%s conc=2 bodyms=1 maxit=12 failevery=3 failkind=errorf combine=1 expectlimit=1" % hx("400ms"),
+        "cli mode=users dur=%s conc=2 bodyms=1 maxit=12 failevery=2 failkind=panicunhash combine=1 expectlimit=1" % hx("400ms"),
+        "cli mode=users dur=%s conc=1 bodyms=1 maxit=9 failevery=3 failkind=timefail combine=1 twice=1 expectlimit=1" % hx("400ms"),
     ]
 
 
 def generate(rng, tier):
     n = {"quick": 1200, "thorough": 30000, "search": 15000}[tier]
     out = [_scn.case(rng, ncomp=rng.choice([2, 3, 4, 5]), setup_fail=0.2, body_fail=0.5) for _ in range(n)]
+    kinds = ["failnow", "panicerr", "panicstr", "nilmap", "errorf", "timefail", "timeerr", "errunhash", "panicunhash", "paniclong", "panicint"]
+    for _ in range({"quick": 6, "thorough": 60, "search": 16}[tier]):
+        out.append("cli mode=users dur=%s conc=%d bodyms=1 maxit=%d failevery=%d failkind=%s combine=1%s expectlimit=1" % (
+            hx("400ms"), rng.choice([1, 2]), rng.randint(6, 16), rng.choice([2, 3]), rng.choice(kinds), rng.choice(["", " twice=1"])))
     for _ in range({"quick": 20, "thorough": 300, "search": 100}[tier]):
         k = rng.choice([2, 3, 4])
         out.append("scn2 %d %s" % (rng.choice([1, 2, 3]),
@@ -31,8 +42,17 @@ def generate(rng, tier):
     return out
 
 
+def compare(rec):
+    if rec["case"].startswith("cli "):
+        from . import _plan
+        return _plan.cli_compare(rec)
+    if rec["model"] == "-":
+        return None
+    return None if rec["impl"] == rec["model"] else "model=%s impl=%s" % (rec["model"], rec["impl"])
+
+
 def nontrivial_key(rec):
-    if rec["case"].startswith("scn2"):
+    if rec["case"].startswith(("scn2", "cli ")):
         return rec["case"]
     f = _scn.features(rec["case"])
     if "combined" in f and f & {"body_fails", "body_stops", "setup_fails", "setup_stops"}:
@@ -43,6 +63,9 @@ def nontrivial_key(rec):
 def distribution(recs):
     d = {"components": {}}
     for r in recs:
+        if r["case"].startswith("cli "):
+            d["command_lines"] = d.get("command_lines", 0) + 1
+            continue
         k = len(r["case"].split()[2].split(";"))
         d["components"][str(k)] = d["components"].get(str(k), 0) + 1
         for f in (_scn.features(r["case"]) if r["case"].startswith("scn ") else ["repeated_setup"]):
